@@ -23,7 +23,7 @@ TR = "src/wormhole/transit.py"
 CONN = "Connection"
 
 
-def r1(tree, rep):
+def nonce_guard(tree, rep, rule="C06.R1"):
     fn = tree.func(TR, CONN, "_decrypt_record")
     g = build(fn, split=True)
     from ..cfg import cmp_atom
@@ -37,9 +37,14 @@ def r1(tree, rep):
     nonce_ok = cmp_atom(_is_record_nonce, lambda e: is_self_attr(expand(fn, e) if isinstance(e, ast.Name) else e, "next_receive_nonce"))
     dec = g.call_nodes(lambda c: isinstance(c.func, ast.Attribute) and c.func.attr == "decrypt" and is_self_attr(c.func.value, "receive_box"))
     ok = len(dec) == 1 and not g.only_when(dec, nonce_ok, True) and g.when_always_raises(nonce_ok, False)
-    rep.check("C06.R1", "_decrypt_record: decrypt is reachable only when the record's nonce equals next_receive_nonce; "
-              "the unequal edge raises", ok, site(fn, TR), key="C06.R1:_decrypt_record:nonce-guard",
+    rep.check(rule, "_decrypt_record: decrypt is reachable only when the record's nonce equals next_receive_nonce; "
+              "the unequal edge raises", ok, site(fn, TR), key="%s:_decrypt_record:nonce-guard" % rule,
               what="a record whose nonce is not the expected counter value (replayed, dropped, reordered) can be decrypted and delivered")
+    return fn, g, dec
+
+
+def r1(tree, rep):
+    fn, g, dec = nonce_guard(tree, rep)
     incs = g.nodes(lambda s: isinstance(s, ast.AugAssign) and is_self_attr(s.target, "next_receive_nonce"))
     ok2 = len(incs) == 1 and g.must_pass(incs) and incs[0] not in g.reach([y for (y, l) in g.succ[incs[0]]])
     rep.check("C06.R1", "_decrypt_record: the receive counter advances exactly once per accepted record", ok2, site(fn, TR),
